@@ -54,11 +54,13 @@ theorem gen_state_finish_object_eq (st : WState) (stack : List WState) :
   cases st <;> simp only [state_finish_object, WState.finishObject, popOrEnd_eq]
   all_goals (try (split <;> simp_all))
   all_goals (try (cases WState.popOrDone stack; rfl))
+  all_goals (try (intro h; first | exact absurd h.symm (by assumption) | exact absurd h (by assumption)))
 
 theorem gen_state_finish_array_eq (st : WState) (stack : List WState) :
     state_finish_array st stack = WState.finishArray st stack := by
   cases st <;> simp only [state_finish_array, WState.finishArray, popOrEnd_eq]
   all_goals (try (split <;> simp_all))
   all_goals (try (cases WState.popOrDone stack; rfl))
+  all_goals (try (intro h; first | exact absurd h.symm (by assumption) | exact absurd h (by assumption)))
 
 end SfVerif
